@@ -238,3 +238,38 @@ V('ja-deep-functor-access', JA, "x.left.functor(uni['a'] | uni['c'], uni['d']), 
 V('en-sort-results-by-hash', EN, "    return results\n\n\ndef apply_unary_rules", "    return [r for r in {id(r): r for r in results}.values()] if False else list(set(results))\n\n\ndef apply_unary_rules", ['C14'])
 V('cat-clear-mutates', CAT, "    def clear_features(self, *args) -> 'Atom':\n        if self.feature in args:\n            return Atom(self.base)", "    def clear_features(self, *args) -> 'Atom':\n        if self.feature in args:\n            object.__setattr__(self, 'feature', UnaryFeature())\n            return self", ['C14', 'C13'])
 V('en-silent-gate-reordered', EN, "if seen_rules is None or seen_key in seen_rules:", "if (seen_rules is None) or (seen_key in seen_rules):", ['C14'], expect='silent')
+
+# ---------------------------------------------------------------- printers (C18, C19)
+JX = 'depccg/printer/jigg_xml.py'
+PX = 'depccg/printer/xml.py'
+PJ = 'depccg/printer/my_json.py'
+PP = 'depccg/printer/prolog.py'
+PI = 'depccg/printer/__init__.py'
+PC = 'depccg/printer/conll.py'
+V('jx-mutates-token', JX, "            token = dict(token)\n", "", ['C18'])
+V('pj-json-in-place', PJ, "            res = dict(node.token)", "            res = node.token", ['C18'])
+V('px-pops-tree-tokens', PX, "    tokens = list(enumerate(tree.tokens))\n    result = etree.Element(\"ccg\")\n    rec(tree, result)", "    result = etree.Element(\"ccg\")\n    rec(tree, result)\n    tree.children.reverse()", ['C18'])
+V('pi-logprob-into-token', PI, "                tree_dict = json_of(tree)\n                tree_dict['log_prob'] = log_prob", "                tree_dict = json_of(tree)\n                tree.token['log_prob'] = log_prob if tree.is_leaf else None\n                tree_dict['log_prob'] = log_prob", ['C18'])
+V('pc-conll-caches-on-tree', PC, "    dependencies = _resolve_dependencies(tree)\n    return rec(tree)", "    dependencies = _resolve_dependencies(tree)\n    tree.dependencies = dependencies\n    return rec(tree)", ['C18'])
+V('pp-prolog-normalises-token', PP, "            token = node.token\n            result_str = (", "            token = node.token\n            token.setdefault('lemma', 'XX')\n            result_str = (", ['C18'])
+V('ja-printer-sets-default', 'depccg/printer/ja.py', "            token = node.token\n", "            token = node.token\n            token['pos'] = token.get('pos', '*')\n", ['C18'])
+V('tr-leaves-cached', TR, "        result = []\n        rec(self)\n        return result", "        result = []\n        rec(self)\n        self._leaves = result\n        return result", ['C18'])
+V('jx-silent-copy-via-Token', JX, "            token = dict(token)\n", "            token = {k: v for k, v in token.items()}\n", ['C18'], expect='silent')
+V('px-silent-local-pop', PX, "            start, token = tokens.pop(0)", "            start, token = tokens[0]\n            del tokens[0]", ['C18'], expect='silent')
+
+# ---------------------------------------------------------------- C19
+AP = 'depccg/argparse.py'
+V('pp-ja-table-lacks-adv2', PP, "    \"ADV2\": 'adv2',\n", "", ['C19'])
+V('pp-en-table-lacks-gbx', PP, "    'gbx': \"gbx(\",\n", "", ['C19'])
+V('pp-en-index-by-symbol', PP, "output.write(_op_mapping[node.op_string])", "output.write(_op_mapping[node.op_symbol])", ['C19'])
+V('pp-en-unary-through-table', PP, "        elif node.is_unary:\n            this_cat = _prolog_category_string(node.cat)\n            child_cat = _prolog_category_string(node.left_child.cat)\n            output.write(f\"lx({this_cat}, {child_cat},\\n\")",
+  "        elif node.is_unary and node.op_string == 'lex':\n            this_cat = _prolog_category_string(node.cat)\n            child_cat = _prolog_category_string(node.left_child.cat)\n            output.write(f\"lx({this_cat}, {child_cat},\\n\")", ['C19'])
+V('pp-token-attr', PP, "token.get('pos', 'XX')", "token.pos", ['C19'])
+V('pp-ja-items-unguarded', PP, "                dict(node.feature.items())\n                if isinstance(node.feature, TernaryFeature) else {}\n", "                dict(node.feature.items())\n", ['C19'])
+V('ap-new-format-choice', AP, "            'ccg2lambda', 'jigg_xml_ccg2lambda', 'json'\n        ],", "            'ccg2lambda', 'jigg_xml_ccg2lambda', 'json', 'auto_flattened'\n        ],", ['C19'])
+V('pi-ptb-unregistered', PI, "    'ptb': ptb_of,\n", "", ['C19'])
+V('ja-new-unary-label', JA, "        return 'ADV0'\n    return 'OTHER'", "        return 'ADV0'\n    return 'UNK'", ['C19'])
+V('en-new-binary-label', EN, 'op_string="gbx",', 'op_string="gbc",', ['C19', 'C03'])
+V('jx-value-unguarded', JX, "            if isinstance(x.feature, UnaryFeature):\n                if x.feature.value is None:", "            if True:\n                if x.feature.value is None:", ['C19'])
+V('pauto-pos-subscript', 'depccg/printer/auto.py', "            pos = node.token.get('pos', 'POS')\n            return f'(<L {cat} {pos} {pos} {word} {cat}>)'", "            pos = node.token['pos']\n            return f'(<L {cat} {pos} {pos} {word} {cat}>)'", ['C19'])
+V('pp-silent-guarded-subscript', PP, "token.get('pos', 'XX')", "(token['pos'] if 'pos' in token else 'XX')", ['C19'], expect='silent')
